@@ -169,6 +169,13 @@ tokFilled:
 
 	start.Head = expr
 
+	// the delivered input may end anywhere inside a dotted pair
+	// (before the backslash, after it, before the closing paren):
+	// wait for the next token instead of mistaking the end-of-input
+	// marker for the tail or the paren.
+	if stopped, err := parser.needOperandOfReaderPrefix(); stopped || err != nil {
+		return SexpEnd, err
+	}
 	tok, err = lexer.PeekNextToken(0)
 	if err != nil {
 		return SexpNull, err
@@ -178,12 +185,18 @@ tokFilled:
 	if tok.typ == TokenBackslash {
 		// eat up the backslash
 		_, _ = lexer.GetNextToken()
+		if stopped, err := parser.needOperandOfReaderPrefix(); stopped || err != nil {
+			return SexpEnd, err
+		}
 		expr, err = parser.ParseExpression(depth + 1)
 		if err != nil {
 			return SexpNull, err
 		}
 
 		// eat up the end paren
+		if stopped, err := parser.needOperandOfReaderPrefix(); stopped || err != nil {
+			return SexpEnd, err
+		}
 		tok, err = lexer.GetNextToken()
 		if err != nil {
 			return SexpNull, err
